@@ -197,7 +197,13 @@ func checkCrashImage(cfg engine.Config, hist []engine.State, img []byte, last, i
 
 // crashHistory runs one history and explores its crash images.
 func crashHistory(rep *Report, m *model.Client, cfg engine.Config, ops []engine.Op, hseed int64, tier string, only *crashReplay) {
-	e, err := engine.RunHistory(cfg, ops, nil)
+	var k1setup func(*engine.Engine)
+	if only == nil {
+		// K1 of the commit protocol: the disk calls of every successful commit vs. the events of Model/Commit.v
+		hook := commitK1Hook(rep, m)
+		k1setup = func(e *engine.Engine) { e.AfterOp = hook }
+	}
+	e, err := engine.RunHistory(cfg, ops, k1setup)
 	if err != nil {
 		return
 	}
